@@ -41,6 +41,9 @@ type built struct {
 	evSeen   map[string]bool // hashes of evidence committed in blocks so far
 	saturate bool            // total power at the maximum: no additions
 	farApplied int
+	stray      map[int64][]strayVote // per height: validators outside the commit that precommitted another block id
+	viaVoteSet map[int64]bool        // per height: the commit handed to the next proposer is VoteSet.MakeCommit() of the precommits
+	strayApplied int
 	pool       sm.EvidencePool // the real pool when realPool
 	far      map[int64][]farStamp // per height: commit slots of a <1/3 minority re-stamped far away from the honest votes
 }
@@ -86,6 +89,77 @@ func farTime(ts time.Time, kind string) time.Time {
 		return hi
 	}
 	return time.Unix(0, 1<<63-1).Add(1).UTC()
+}
+
+// strayVote: a validator whose slot is absent in the commit did cast a (validly signed) precommit, but for another
+// block id: the same block hash under another part-set header (one block handed out in two encodings), or another hash.
+type strayVote struct {
+	pick int // index into the absent slots
+	kind string
+}
+
+var strayKinds = []string{"same-hash-other-total", "same-hash-other-parthash", "other-hash", "other-hash-same-psh"}
+
+// commitViaVoteSet rebuilds the commit the way a proposer obtains it: every precommit (those of the commit plus the
+// stray ones) goes into a real types.VoteSet, the commit is VoteSet.MakeCommit().
+func commitViaVoteSet(chainID string, c *types.Commit, vals *types.ValidatorSet, strays []strayVote) (*types.Commit, int, error) {
+	vs := types.NewVoteSet(chainID, c.Height, c.Round, tmproto.PrecommitType, vals)
+	var absent []int
+	for i, s := range c.Signatures {
+		if s.BlockIDFlag == types.BlockIDFlagAbsent {
+			absent = append(absent, i)
+			continue
+		}
+		if added, err := vs.AddVote(c.GetVote(int32(i))); err != nil || !added {
+			return nil, 0, fmt.Errorf("precommit of slot %d not added: %v", i, err)
+		}
+	}
+	used := map[int]bool{}
+	n := 0
+	for _, sv := range strays {
+		if len(absent) == 0 {
+			break
+		}
+		i := absent[sv.pick%len(absent)]
+		if used[i] {
+			continue
+		}
+		used[i] = true
+		id := c.BlockID
+		id.Hash = append([]byte(nil), id.Hash...)
+		id.PartSetHeader.Hash = append([]byte(nil), id.PartSetHeader.Hash...)
+		switch sv.kind {
+		case "same-hash-other-total":
+			id.PartSetHeader.Total++
+		case "same-hash-other-parthash":
+			id.PartSetHeader.Hash[0] ^= 1
+		case "other-hash":
+			id.Hash[0] ^= 1
+			id.PartSetHeader.Hash[0] ^= 1
+		default:
+			id.Hash[31] ^= 0x80
+		}
+		v := &types.Vote{Type: tmproto.PrecommitType, Height: c.Height, Round: c.Round, BlockID: id,
+			Timestamp: c.Signatures[firstPresent(c)].Timestamp, ValidatorAddress: vals.Validators[i].Address, ValidatorIndex: int32(i)}
+		signVote(lib.KeyIndex(vals.Validators[i].Address), chainID, v)
+		if added, err := vs.AddVote(v); err != nil || !added {
+			return nil, 0, fmt.Errorf("stray precommit of slot %d not added: %v", i, err)
+		}
+		n++
+	}
+	if !vs.HasTwoThirdsMajority() {
+		return nil, 0, fmt.Errorf("vote set without +2/3")
+	}
+	return vs.MakeCommit(), n, nil
+}
+
+func firstPresent(c *types.Commit) int {
+	for i, s := range c.Signatures {
+		if s.BlockIDFlag != types.BlockIDFlagAbsent {
+			return i
+		}
+	}
+	return 0
 }
 
 // genFar draws far-away timestamps for present slots of the commit by vals whose total power stays below one third.
@@ -528,6 +602,16 @@ func (b *built) genPlan(t *rapid.T, label string, o genOpts, bias string) *lib.H
 	if b.realPool && c.Tip() >= c.Spec.InitialHeight && rapid.IntRange(0, 9).Draw(t, label+".doev") < 4 {
 		p.Evidence = b.genValidEvidence(t, label, rapid.IntRange(1, 2).Draw(t, label+".nev"))
 	}
+	if rapid.IntRange(0, 9).Draw(t, label+".viavoteset") < 4 {
+		if b.viaVoteSet == nil {
+			b.viaVoteSet, b.stray = map[int64]bool{}, map[int64][]strayVote{}
+		}
+		h := c.NextHeight()
+		b.viaVoteSet[h] = true
+		for j := rapid.IntRange(0, 3).Draw(t, label+".nstray"); j > 0; j-- {
+			b.stray[h] = append(b.stray[h], strayVote{rapid.IntRange(0, 200).Draw(t, label+".strayslot"), rapid.SampledFrom(strayKinds).Draw(t, label+".straykind")})
+		}
+	}
 	if rapid.IntRange(0, 9).Draw(t, label+".dofar") < 2 {
 		if lib.IsKnown(findingWrap) {
 			// listed as known and unrepaired: the class is excluded by construction, the search goes on behind it
@@ -592,6 +676,15 @@ func (b *built) advance(p *lib.HeightPlan) error {
 		if m, ok := refMedian(commitEntries(blk.LastCommit, pre.LastValidators, false)); !ok || !m.Equal(blk.Time) {
 			return fmt.Errorf("height %d: the proposer's block time %v is not the weighted median %v of its LastCommit", h, blk.Time, m)
 		}
+	}
+	// the commit the next proposer uses comes out of a real vote set that also saw precommits for other block ids
+	if b.viaVoteSet[h] {
+		nc, n, err := commitViaVoteSet(pre.ChainID, b.c.Commits[h], pre.Validators, b.stray[h])
+		if err != nil {
+			return fmt.Errorf("height %d: %v", h, err)
+		}
+		b.c.Commits[h] = nc
+		b.strayApplied += n
 	}
 	// a minority re-stamps its precommits far away (kept only if a valid successor still exists: median after block time)
 	if fs := b.far[h]; len(fs) > 0 {
